@@ -1,4 +1,5 @@
-"""Scratch directories: one root per process under /dev/shm (fallback $TMPDIR), removed at exit."""
+"""Scratch directories: one root per process under /dev/shm (fallback $TMPDIR), removed at exit. A forked child (pool
+worker: leaves through os._exit, no atexit) puts its root INSIDE the root it inherited, so the parent's exit removes it."""
 import atexit
 import os
 import shutil
@@ -18,8 +19,9 @@ def _base():
 def root() -> str:
     global _ROOT, _PID
     if _ROOT is None or _PID != os.getpid():
+        parent = _ROOT if (_ROOT is not None and os.path.isdir(_ROOT)) else None
         _PID = os.getpid()
-        _ROOT = tempfile.mkdtemp(prefix=f'tcv-{_PID}-', dir=_base())
+        _ROOT = tempfile.mkdtemp(prefix=f'tcv-{_PID}-', dir=parent or _base())
         atexit.register(_cleanup, _ROOT, _PID)
     return _ROOT
 
